@@ -471,6 +471,9 @@ func (fg *FuncGen) funcEnv(st, old State, results []TTerm) *Env {
 	for _, p := range fg.fn.Params {
 		env.vars[p.Name()] = fg.val[p][0]
 	}
+	for _, fv := range fg.fn.FreeVars {
+		env.vars[fv.Name()] = fg.val[fv][0] // captured variable of a function literal: a pointer into the enclosing activation
+	}
 	for i, r := range results {
 		env.vars[fmt.Sprintf("result%d", i)] = r
 		if len(results) == 1 {
